@@ -755,6 +755,39 @@ def run(ctx):
         ys = [gen_vec(rng, k) for _ in range(pre + 2)]
         kalman_case(A, C, G, H, gen_vec(rng, n), S0, ys, rng.choice(["update", "p2f"]), expect_singular=True)
 
+    # ---- Kalman: very diffuse prior with more sensors than states (fixed probes) ---------------------------------
+    # prior_to_filtered forms Sigma - M G Sigma (not the Joseph form): with cond(F) large the subtraction cancels and the
+    # result can come out with a negative eigenvalue.  Measured on the clean code (4000 random models, k >= n, H = I):
+    # -min eig / |Sigma_0| stays below 5e-12 for cond_2(F) < 2^26 and grows like 0.5 * eps * cond(F) beyond (1.1e-8 at 2^27,
+    # 6.7e-8 at 2^29).  Inside the boundary the ordinary keys apply (tolerance relative to the prior scale); beyond it a
+    # loss of positive semidefiniteness is reported under its own narrow key.
+    DIFFUSE_COND = F(2) ** 26
+    for e_ in (20, 28):
+        s_ = F(2) ** e_
+        A_, C_, G_, H_ = [[F(1, 2)]], [[F(1)]], [[F(1)], [F(1)], [F(1)]], eye(3)
+        xh_, S0_, y_ = [F(0)], [[s_]], [F(1), F(2), F(3)]
+        knd = Kalman(LinearStateSpace(to_np(A_), to_np(C_), to_np(G_), to_np(H_)), to_np(col(xh_)), to_np(S0_))
+        knd.prior_to_filtered(to_np(col(y_)))
+        Sd, xd = fm(knd.Sigma), fm(knd.x_hat)
+        Fm_ = madd(mm(mm(G_, S0_), tr(G_)), mm(H_, tr(H_)))
+        condF = ninf(Fm_) * ninf(solve_exact(Fm_, eye(3)))
+        b_ = batch_condition(A_, C_, G_, H_, xh_, S0_, [y_], 0)
+        rp = {"op": "kalman", "mode": "p2f", "A": ratm(A_), "C": ratm(C_), "G": ratm(G_), "H": ratm(H_), "x_hat": rats(xh_),
+              "Sigma": ratm(S0_), "ys": ratm([y_]), "code_Sigma": wire_f(knd.Sigma), "code_x_hat": wire_f(knd.x_hat),
+              "exact_Sigma": ratm(b_[1]), "cond_inf_F": float(condF)}
+        ctx.count("kalman:diffuse-prior-2^%d" % e_)
+        if condF >= DIFFUSE_COND:
+            if not psd_tol(Sd, F(ENV_K) * max(F(1), maxabs(Sd))):
+                finding("kalman_psd_loss_diffuse_prior", "prior_to_filtered with prior variance 2^%d and 3 sensors on 1 state returns "
+                        "Sigma = %s (exact %s): negative" % (e_, float(Sd[0][0]), float(b_[1][0][0])), rp)
+        else:
+            tol_ = F(ENV_K) * s_        # inside the boundary: rounding relative to the prior scale
+            if not psd_tol(Sd, tol_):
+                ctx.spec_fail("kalman_psd", "Sigma after a measurement update from a diffuse prior (cond F = %.2e) is not PSD" % float(condF), rp)
+            if not close(Sd, b_[1], tol_) or not close(xd, b_[0], tol_):
+                ctx.spec_fail("kalman_cov", "filtered moments from a diffuse prior (cond F = %.2e) differ from the exact conditional "
+                              "moments beyond 1e-8 * |Sigma_0|" % float(condF), rp)
+
     # ---- Kalman: input representations, object reuse, aliasing -----------------------------------------
     # integer-valued models handed over as python ints / lists / integer ndarrays / 0-d / F-ordered / strided views;
     # the same prior objects reused after set_state(); the same observation object reused across update() calls;
